@@ -419,6 +419,20 @@ VF_MAIN
         /* and only if the replay window accepted its sequence number: either
            the window state changed, or ... (the window itself is C16.a) */
     }
+    if (memcmp(ssl->expectedEpoch, pre.expectedEpoch, 2) != 0)
+    {
+        /* the replay window is per epoch: when the expected epoch changes,
+           nothing of the old epoch may remain marked - at most the records
+           consumed in this call (>= 14 bytes each) are */
+        unsigned long bm = ssl->dtlsBitmap;
+        int pc = 0, b;
+        VF_REACH("epoch_changed");
+        for (b = 0; b < 64; b++)
+        {
+            pc += (int) ((bm >> b) & 1);
+        }
+        VF_ASSERT(pc <= VF_N / 14, "c16.epoch_change_resets_window");
+    }
     if (rc == SSL_PROCESS_DATA && g_dec_calls == 1 && g_first_dec_in == S_inbuf + DTLS_HEADER_LEN)
     {
         /* delivered record was not older than the last sequence number by 32
